@@ -125,6 +125,16 @@ func c04RecursionAtoms() []c04Atom {
 				Kinds: "self reference of a " + f.name + " × " + s.name})
 		}
 	}
+	// a type parameter NAMED like another top-level declaration: the parameter is bound by the definition itself,
+	// a dependency on its namesake would order the two declarations by a use that does not exist
+	out = append(out,
+		c04Atom{Name: "recursion/type-parameter-named-like/function-that-uses-the-generic", Family: "recursion",
+			Decls: []string{"func g#[u# any](x u#) u# {\n\treturn x\n}", "func u#() uint64 {\n\treturn g#[uint64](1)\n}"},
+			Kinds: "type parameter named like a function that calls the generic function"},
+		c04Atom{Name: "recursion/type-parameter-named-like/constant-built-from-nothing", Family: "recursion",
+			Decls: []string{"func g#[k# any](x k#) k# {\n\treturn x\n}", "const k# uint64 = 3", "func u#() uint64 {\n\treturn g#[uint64](k#)\n}"},
+			Kinds: "type parameter named like a constant"},
+	)
 	return out
 }
 
